@@ -2,6 +2,8 @@ import Tuc.Model.CutStr
 import Tuc.Model.FastLane
 import Tuc.Model.Stream
 import Tuc.Model.Lines
+import Tuc.Spec.Record
+import Tuc.Spec.Lines
 /-!
 # Driver — line protocol front end of the executable model
 
@@ -183,6 +185,16 @@ def runCut (kv : Kv) : String :=
       match streamOptOf opt with
       | some so => renderRun (cutBytesStream so (splitSegs input (parseNats ((kv.get? "seg").getD ""))))
       | none => "inapplicable"
+    | "auto" =>
+      if kv.flag "M" then
+        match streamOptOf opt with
+        | some so => renderRun (cutBytesStream so (splitSegs input (parseNats ((kv.get? "seg").getD ""))))
+        | none => "reject"
+      else if opt.boundsType = .bytes then renderRun (readAndCutBytes opt input)
+      else if opt.boundsType = .lines then renderRun (readAndCutLines opt input)
+      else match fastOptOf opt with
+        | some fo => renderRun (readAndCutFast fo input)
+        | none => renderRun (readAndCutStr opt input)
     | "lines" => renderRun (readAndCutLines opt input)
     | "bytes" => renderRun (readAndCutBytes opt input)
     | "cutstr" =>
@@ -190,6 +202,25 @@ def runCut (kv : Kv) : String :=
       let buf := (kv.optBytes "sb").getD []
       renderRun (cutStr input opt fields buf [opt.eol.byte]).1
     | _ => "unmodelled"
+
+def runSpec (kv : Kv) : String :=
+  match buildOpt kv with
+  | .error _ => "-"
+  | .ok opt =>
+    let input := (kv.optBytes "in").getD []
+    if opt.regexBag.isSome && opt.boundsType != .characters then "-"
+    else if (kv.get? "wf").isSome && kv.get? "wf" != some "-" then "-"
+    else if (kv.get? "rf").isSome && kv.get? "rf" != some "-" then "-"
+    else
+    match (kv.get? "eng").getD "str" with
+    | "str" | "fast" | "stream" | "auto" =>
+      if opt.boundsType = .lines then renderRun (Spec.specLines (Spec.cfgOf opt) input)
+      else if opt.boundsType = .bytes then renderRun (Spec.specBytes (Spec.cfgOf opt) input)
+      else renderRun (Spec.specRun (Spec.cfgOf opt) input)
+    | "cutstr" => renderRun (Spec.specRecord (Spec.cfgOf opt) input)
+    | "lines" => renderRun (Spec.specLines (Spec.cfgOf opt) input)
+    | "bytes" => renderRun (Spec.specBytes (Spec.cfgOf opt) input)
+    | _ => "-"
 
 def ubFromKv (kv : Kv) : UserBounds :=
   { l := parseSideTok ((kv.get? "l").getD "_"), r := parseSideTok ((kv.get? "r").getD "_"),
@@ -236,7 +267,11 @@ def runCase (line : String) : String :=
 partial def loop (i o : IO.FS.Stream) : IO Unit := do
   let line ← i.getLine
   if line.isEmpty then return ()
-  o.putStrLn (runCase line ++ "\t-")
+  let kind := (line.trimAscii.toString.splitOn " ").headD ""
+  let spec := if kind == "cut" then
+      runSpec (parseKv ((line.trimAscii.toString.splitOn " ").filter (· ≠ "")).tail)
+    else "-"
+  o.putStrLn (runCase line ++ "\t" ++ spec)
   o.flush
   loop i o
 
